@@ -128,18 +128,8 @@ impl<F: Flavor> Sys<F> {
         structcheck::check_queue("timer heap", &snap.queues[0], &live, &self.dead, out);
         // heap members have non-zero links only through the heap; unlinked nodes carry none
         structcheck::check_membership(&[&snap.queues[0]], &live, out);
-        // heap order on every edge
-        let q = &snap.queues[0];
-        for (idx, n) in q.iter().enumerate() {
-            if n.depth > 0 {
-                if let Some(parent) = q[..idx].iter().rev().find(|p| p.depth == n.depth - 1) {
-                    if parent.extra > n.extra {
-                        out.v("C01", "heap-order", format!("timer heap: parent deadline {} > child deadline {}", parent.extra, n.extra));
-                        out.corrupt = true;
-                    }
-                }
-            }
-        }
+        // (heap order is not part of C01; a mis-ordered heap shows up as a wrong next_expiration()
+        // or wake order under C15 and is validated edge by edge for the heap itself under C20)
         for (i, s) in self.slots.iter().enumerate() {
             if let Some(s) = s {
                 if s.fut.get().is_terminated() != s.meta.done {
@@ -330,11 +320,14 @@ impl<F: Flavor> System for Sys<F> {
                         }
                     }
                 }
-                // only the due futures' latest wakers may have been invoked, each exactly once
+                // all and only the due futures' latest wakers may have been invoked (a waker that is
+                // invoked more than once is not a violation of C15)
                 let mut allowed: Vec<u8> = due.iter().map(|&i| wid(G, i, self.slots[i].as_ref().unwrap().meta.last) as u8).collect();
                 allowed.sort();
+                allowed.dedup();
                 let mut got = log.clone();
                 got.sort();
+                got.dedup();
                 if got != allowed {
                     out.v("C15", "wake-set", format!("check_expirations() at clock {} invoked wakers {:?}; due registered futures are slots {:?} whose latest wakers are {:?}", now, log, due, allowed));
                 }
@@ -356,9 +349,6 @@ impl<F: Flavor> System for Sys<F> {
         let woken: Vec<usize> = (0..harness::MAX_WAKERS).filter(|&w| wakes_after[w] > wakes_before[w]).collect();
         if !woken.is_empty() {
             out.o(&format!("woke{:?}", woken));
-        }
-        if !matches!(op, Op::Check) && wakes_after != wakes_before {
-            out.v("C15", "unexpected-wake", format!("{:?} invoked wakers {:?}; only check_expirations() wakes timer futures", op, woken));
         }
         self.invariants(out);
     }
